@@ -65,6 +65,18 @@ def run(prop, tier, seed, ctx):
             raise MachineryError("no exported cases from " + cfg)
         cases = list(enumerate(res.records))
         mism = shard_map("bind.resolver", "replay_chunk", cases)
+        # the sectional resolver with two INTERLEAVED groups: every exported report next to a partner report with the
+        # same suppressions, feedback created alternately; each group must resolve like its report on its own
+        by_supp = {}
+        for i, r in cases:
+            by_supp.setdefault(json.dumps(r["supp"], sort_keys=True), []).append(r)
+        gcases = []
+        for i, r in cases:
+            peers = by_supp[json.dumps(r["supp"], sort_keys=True)]
+            other = peers[(i * 7 + 3) % len(peers)]
+            if len(r["fbs"]) + len(other["fbs"]) >= 3:
+                gcases.append((i, r, other))
+        mism += shard_map("bind.resolver", "grouped_chunk", gcases)
         ctx.cov["replayed_cases"] += len(cases)
         ctx.count(len(cases), (json.dumps(r, sort_keys=True) for _, r in cases if nontrivial(r)))
         ctx.sample({"kind": "exported case", "cfg": cfg, "case": res.records[len(res.records) // 2]})
@@ -146,6 +158,10 @@ def replay(prop, rep):
     """Re-execute one replay file; exit 1 if it still violates."""
     from bind import resolver as B
     r = rep["replay"]
+    if r.get("resolver") == "sectional-groups":
+        out = B.grouped_chunk([(r.get("style", 0), r["case"], r["partner"])], None) + B.grouped_chunk([(r.get("style", 0), r["partner"], r["case"])], None)
+        print(json.dumps(out, indent=1, default=repr)[:3000])
+        return 1 if out else 0
     if "case" in r:
         out = B.replay_chunk([(r.get("style", 0), r["case"])], None)
         out = [m for m in out if set(m["fields"]) & FIELDS[prop] or m["observed"].get("error")]
